@@ -29,7 +29,8 @@ def expr_content(g, e):
         v = [0, e.offset, U(e.symbol)]
     else:
         v = [1, e.scale, e.offset, U(e.symbol1), U(e.symbol2)]
-    return v, [attr_int(g, a) for a in e.attributes]
+    # the attributes are a SET of numbers: the member and its number, both in one Python set, are one attribute (fix c958318)
+    return v, sorted({attr_int(g, a) for a in e.attributes})
 
 
 def block_content(g, b):
